@@ -253,8 +253,19 @@ MarkBounds(S) ==
                  LET p == S.cache[t].per[u] IN 0 <= p.read /\ p.read <= p.recv /\ p.recv <= S.cache[t].last, "LiveMarksWithinBounds")
       : u \in Users } : t \in Topics }
 
+\* relayed notifications ({info}) as the sessions received them: in the topic itself, or on 'me' with the topic as src
+InfoTopic(f) == IF f.topic \in Topics THEN f.topic ELSE f.src
+M_C09_Info(pre, a, obs) ==
+  If(\A f \in obs.info : f.what = "kp" => SessUser[f.s] # f.from, "TypingNoteNeverReachesTheTypist")
+  \cup If(\A f \in obs.info : ("s" \in DOMAIN a /\ a.a = "Note") => f.s # a.s, "NoteNeverRelayedToItsOriginSession")
+  \cup If(\A f \in obs.info : (f.what \in {"read", "recv"} /\ InfoTopic(f) \in Topics /\ f.from \in Users) =>
+             LET r == pre.subs[InfoTopic(f)][f.from] IN r.st = "live" /\ "R" \in Eff(r), "RelayedMarkComesFromSubscribedReader")
+  \cup If(\A f \in obs.info : (f.what = "kp" /\ InfoTopic(f) \in Topics /\ f.from \in Users) =>
+             LET r == pre.subs[InfoTopic(f)][f.from] IN r.st = "live" /\ "W" \in Eff(r), "TypingNoteComesFromSubscribedWriter")
+
 M_C09(pre, a, obs, post) ==
   (MarkBounds(post) \ MarkBounds(pre))
+  \cup M_C09_Info(pre, a, obs)
   \cup UNION {
     LET t == tt IN
     UNION {
